@@ -207,6 +207,20 @@ _claim("C08",
   "internal errors is explored, not proved. Known finding: history() keeps dropped features.",
   "Coq-evaluated invariant with proved soundness + stage-wise totality/WF theorems + degenerate-input exploration")
 
+_claim("C16",
+  "Proof over models of summary() (per-feature rows built from labels_per_values, the isinstance / str_default / "
+  "hidden-NaN tests, the extra NaN pass over the requested features, group-by label) and of the history of a "
+  "carving stage on top of the carving model: qualitative rows partition all known shown values and each value's "
+  "row label is the label transform outputs; quantitative features get one row per fitted group with the "
+  "missing-value sentinel in the row of its group; summary(f) = the rows of f only; summary lists exactly the kept "
+  "features; the history holds every candidate exactly once with its measure, sorted by decreasing measure, "
+  "flagged false before the first viable one, then true, then 'Not checked', and the last record flagged viable IS "
+  "the fitted grouping (one and two stages). Run-time: summary()/summary(f)/history()/history(f) of real objects "
+  "vs transform(X_train) and vs the model record by record.",
+  "Trusted: pandas groupby/sort glue, mapping of history combinations to base modalities in the harness; "
+  "viability messages are not compared. history() also keeps dropped features (recorded under C08).",
+  "Coq proof (summary rows from the C04 lookup theorems; history shape from the first-viable scan) + record-by-record correspondence")
+
 NOT_YET = "not yet built in this round: model and correspondence for this property are still to be written (see DESIGN.md section 9 build order)"
 
 checks = []
